@@ -376,6 +376,83 @@ def rule_MP8(rep, prog):
                 sample={"armed_tests": len(at)})
 
 
+def rule_MP9(rep, prog):
+    rid = rep.rule("C11-MP9", "follows only the new settings: once _dispatch_timers_run has applied a pending configuration to the timer it was looking at, it does "
+                   "not deliver for that timer before it has re-evaluated the due test against the NEW target", floor=1)
+    fn = prog.fn("_dispatch_timers_run")
+    rep.saw(fn)
+    nowc = calls_named(fn, ("_dispatch_time_now_cached", "_dispatch_time_now"))
+    tl = [i for i in fn.all_insts() if i.op == "load" and "target" in prog.fields(i)]
+    tests = [i for i in fn.all_insts() if i.op == "icmp" and i.d["pred"] in ("ugt", "ule", "ult", "uge") and
+             any(fn.inst(o) in tl for o in i.ops) and any(fn.inst(o) in nowc for o in i.ops)]
+    conf = calls_named(fn, "_dispatch_timer_unote_configure")
+    deliver = icalls_slot(prog, fn, "dst_merge_evt") + calls_named(fn, ("_dispatch_timer_unote_compute_missed",))
+    if not tests or not conf or not deliver:
+        rep.unknown(rid, "anchor vanished in _dispatch_timers_run (due tests=%d configure=%d deliveries=%d)" % (len(tests), len(conf), len(deliver)))
+        return
+    for c in conf:
+        bad = [d for d in deliver if fn.inst_reaches(c, d, avoid_insts=tests)]
+        rep.require(rid, not bad, c.loc, fn.name, "delivery-after-reconfigure-without-due-test",
+                    "_dispatch_timers_run applies a pending dispatch_source_set_timer configuration and goes on to deliver (%s) without re-checking target <= now: "
+                    "the handler runs before the new start time with a missed-count computed from now < target (a wrapped, enormous count)"
+                    % (bad[0].loc if bad else ""), sample={"configure": c.loc})
+
+
+def rule_TB10(rep, prog):
+    rid = rep.rule("C11-TB10", "the kernel timer's bookkeeping mirrors the epoll operation just performed: after epoll_ctl(op) on a timerfd both det_registered and "
+                   "det_armed are set, unconditionally, to (op != EPOLL_CTL_DEL); the next arm then chooses ADD / MOD correctly", floor=2)
+    k = consts.get(["EPOLL_CTL_ADD", "EPOLL_CTL_DEL", "EPOLL_CTL_MOD"], unit="event/event_epoll", includes=("sys/epoll.h",))
+    fn = prog.fn("_dispatch_timeout_program")
+    rep.saw(fn)
+    ctl = calls_named(fn, "epoll_ctl")
+    if len(ctl) != 1:
+        rep.unknown(rid, "expected one epoll_ctl in _dispatch_timeout_program, found %d" % len(ctl))
+        return
+    c = ctl[0]
+    opi = fn.inst(c.ops[1])
+    for field in ("det_registered", "det_armed"):
+        sts = [st for st in fn.all_insts() if st.op == "store" and field in prog.fields(st) and fn.inst_reaches(c, st)]
+        ok = bool(sts) and fn.must_pass(c, sts)[0] and opi is not None
+        vals = {}
+        if ok:
+            for nm in ("EPOLL_CTL_ADD", "EPOLL_CTL_MOD", "EPOLL_CTL_DEL"):
+                got = {ceval(fn, st.ops[0], {opi.id: k[nm]}) for st in sts}
+                vals[nm] = sorted(got, key=str)
+                if got != {int(nm != "EPOLL_CTL_DEL")}:
+                    ok = False
+        rep.require(rid, ok, c.loc, fn.name, "timerfd-bookkeeping:%s" % field,
+                    "_dispatch_timeout_program does not set %s to (op != EPOLL_CTL_DEL) on every path after epoll_ctl (values per op: %s): after the timerfd was "
+                    "removed from the epoll set (its clock's heap became empty) the next arm issues MOD on an fd that is not in the set, the error is only logged "
+                    "and no timer on that clock ever fires again" % (field, vals), sample={"field": field, "values": str(vals)})
+
+
+def rule_MP11(rep, prog):
+    rid = rep.rule("C11-MP11", "always fires: when programming finds the heap's earliest timer already due (delay == 0) it marks the heaps dirty so that the drain "
+                   "loop runs the timers again instead of leaving the kernel timer deleted", floor=1)
+    fn = prog.fn("_dispatch_timers_program")
+    rep.saw(fn)
+    gd = calls_named(fn, "_dispatch_timers_get_delay")
+    dirty = calls_named(fn, "_dispatch_timers_heap_dirty") + [i for i in fn.all_insts() if i.op == "store" and "dth_dirty_bits" in prog.fields(i)]
+    zero = []
+    for i in fn.all_insts():
+        if i.op == "icmp" and i.d["pred"] in ("eq", "ne") and i.ops[1][0] == "c" and i.ops[1][1] == 0:
+            e = fn.inst(i.ops[0])
+            if e is not None and e.op == "extractvalue" and fn.inst(e.ops[0]) in gd and e.d.get("idx") == [0]:
+                zero.append(i)
+    if not gd or not zero:
+        rep.unknown(rid, "anchor vanished in _dispatch_timers_program (get_delay=%d, delay==0 tests=%d)" % (len(gd), len(zero)))
+        return
+    bad = None
+    n_due = 0
+    for kind, inst, cx, path in paths.walk(fn, entry_point(fn), lambda i: False, avoid=lambda i: i in dirty):
+        if kind == "exit" and any(cx.truth.get(z.id) == (z.d["pred"] == "eq") for z in zero):
+            bad = path
+    rep.require(rid, bad is None and bool(dirty), zero[0].loc, fn.name, "due-timer-found-while-programming-not-redriven",
+                "_dispatch_timers_program returns on a path (%s) where the earliest timer was found already due (delay == 0) without marking the heaps dirty: the "
+                "kernel timer is deleted, dth_needs_program is cleared and the due timer stays in the heap until unrelated timer activity happens" % (bad,),
+                sample={"dirty_marks": len(dirty)})
+
+
 def run(rep, tier="quick", srcdir=None, only=None):
     prog, units = load(UNITS, tier, srcdir)
     rep.units = units
@@ -394,6 +471,12 @@ def run(rep, tier="quick", srcdir=None, only=None):
         rule_MP7(rep, prog)
     if want("C11-MP8"):
         rule_MP8(rep, prog)
+    if want("C11-MP9"):
+        rule_MP9(rep, prog)
+    if want("C11-TB10"):
+        rule_TB10(rep, prog)
+    if want("C11-MP11"):
+        rule_MP11(rep, prog)
 
 
 MANIFEST = {
